@@ -22,18 +22,15 @@ Definition C03_bits_stmt : Prop :=
     lenN expected + 16 <= cap -> (4 * length ms + 8 <= fuel)%nat ->
     let r := run_native fuel [cap] false false [] (one_shot ms) (init override) in
     rr_final r = Done Success /\ rr_emitted r = expected.
-(* Proved of the statement so far: the run never panics and keeps the invariant (C03_bits_partial);
-   the window field is read as RFC 7932 says (C16_parse); empty members in any position leave the
-   stream intact: for EVERY tail (a, b) ending in the end marker, at all 8 bit alignments incl. the
-   straddling one, stripping the marker and re-appending it at finish gives back exactly (a, b)
-   (C03_empty_members), and for every supported window override the initial pseudo-stream is the
-   RFC 7932 empty stream of that window, with or without empty members fed through it
-   (C03_override_empty); the statement holds on the witnesses below, which are the cases the code got
-   wrong before the repairs.  Missing: the general
-   bit-shifting lemma for realign/copy_whole (that realigned_header holds the header bits at offset
-   last_byte_bit_offset followed by the whole bytes) and the induction over members; until then the
-   statement is checked on every generated list by checks/c03.py (concat_spec applied to the
-   implementation's output, plus two independent decoders). *)
+(* STATUS.  The statement above is FALSE of the faithful model (C03_bits_stmt_refuted, at the end of this
+   file): concat_spec is also defined on 5/6-byte strings whose end marker lies inside the look-ahead
+   bytes, which are not Brotli streams and on which the concatenator's 2-byte tail logic differs.
+   With the one extra hypothesis `markers_ok override ms = true` (spec/ConcatMarker.v; it holds for
+   every member of 7 or more bytes, C03_marker_ok_long) the statement is PROVED as C03_bits, and
+   for every slicing of inputs and outputs and every save/restore schedule as C03_bits_any_slicing
+   (through C12's slicing theorems).  The check applies the extracted concat_spec and markers_ok to
+   every generated list as well, and two independent decoders judge the concatenation (the
+   decoder-level statement C03_sem is not proved). *)
 Theorem C03_bits_partial : forall fuel caps percall rall rs tasks s0,
   Inv s0 -> tasks_ok (Started s0) tasks ->
   rr_final (run_native fuel caps percall rall rs tasks s0) <> Panicked.
@@ -102,3 +99,140 @@ Theorem C03_bits_on_former_witnesses :
   Some (rr_emitted (run_native 100 [64] false false [] [TFile; TChunk [129; 1]; TFinish] (init (Some 30)))) = concat_spec (Some 30) [[129; 1]].
 Proof. exact (conj C03_straddle_fixed C03_trailing_fixed). Qed.
 Print Assumptions C03_bits_on_former_witnesses.
+
+(* ------------------------------------------------------------------ the bit-level theorem *)
+From V Require Import spec.ConcatMarker proofs.Concat_delay proofs.Concat_glue proofs.Concat_bitlib proofs.Concat_hdr
+  proofs.Concat_strip proofs.Concat_bits proofs.Concat_final proofs.Concat_anyslice.
+
+(* C03_bits_stmt as written above is FALSE of the faithful model: concat_spec only inspects a member's
+   window field, the shape of its first header and the two end-marker bits, so it is also defined on
+   byte strings that are not Brotli streams and whose "end marker" lies inside the five look-ahead
+   bytes.  Witness: the five bytes 0b 00 80 80 01 (marker straddling bytes 3 and 4) followed by any
+   member - the specification is defined, the concatenator answers BrotliFileNotCraftedForAppend. *)
+Theorem C03_bits_stmt_refuted : ~ C03_bits_stmt.
+Proof. exact bits_stmt_refuted. Qed.
+Print Assumptions C03_bits_stmt_refuted.
+
+Theorem C03_bits_stmt_refuted_witness :
+  concat_spec None [[11; 0; 128; 128; 1]; [59]] = Some [11; 0; 128; 128; 1] /\
+  rr_final (run_native 16 [21] false false [] (one_shot [[11; 0; 128; 128; 1]; [59]]) (init None)) = Done BrotliFileNotCraftedForAppend /\
+  markers_ok None [[11; 0; 128; 128; 1]; [59]] = false.
+Proof. exact straddle5_facts. Qed.
+Print Assumptions C03_bits_stmt_refuted_witness.
+
+(* the other two shapes of the same looseness: marker bits in the padding of the header's last source
+   byte / marker straddling bytes 4 and 5 of a six-byte string whose header fills five bytes: Success,
+   but the marker bits are dropped *)
+Theorem C03_bits_stmt_refuted_more :
+  (concat_spec None [m_large_first; [17; 22; 0; 0; 194]] = Some [17; 22; 2; 0; 2; 97; 0; 0; 8; 3] /\
+   result (run_native 16 [30] false false [] (one_shot [m_large_first; [17; 22; 0; 0; 194]]) (init None))
+     = (Done Success, [17; 22; 2; 0; 2; 97; 0; 0; 8]) /\
+   markers_ok None [m_large_first; [17; 22; 0; 0; 194]] = false) /\
+  (concat_spec (Some 22) [[17; 150; 0; 0; 160; 1]] = Some [43; 0; 0; 8; 3] /\
+   result (run_native 16 [30] false false [] (one_shot [[17; 150; 0; 0; 160; 1]]) (init (Some 22)))
+     = (Done Success, [43; 0; 0; 8; 1]) /\
+   markers_ok (Some 22) [[17; 150; 0; 0; 160; 1]] = false).
+Proof. exact marker_in_header_witnesses. Qed.
+Print Assumptions C03_bits_stmt_refuted_more.
+
+(* The strongest true variant: the added hypothesis is `markers_ok override ms = true`
+   (spec/ConcatMarker.v, executable): in every member of at least five bytes the end marker starts at
+   or after bit 8 * max 4 src_bytes, src_bytes = the look-ahead bytes occupied by window field + first
+   header when that header is shifted.  Every real stream satisfies it (content after a metadata /
+   uncompressed header is byte-aligned, so the final empty meta-block starts at or after that byte
+   boundary); it can only fail for strings of 5 or 6 bytes (C03_marker_ok_long).  With it, the
+   one-shot run answers Success and emits exactly the bytes of the bit-level specification:
+   window field and body of the first member, every later member's first header shifted behind the
+   previous member's last data bit (realign/copy_whole = the bit-shifting lemma
+   proofs/Concat_hdr.realign_val: the header register holds partial byte + header * 2^offset), zero
+   padding, the remaining bytes verbatim, one final end marker. *)
+Definition C03_bits_marked_stmt : Prop :=
+  forall (override : option N) (ms : list (list N)) (expected : list N) (fuel : nat) (cap : N),
+    Forall bytes_ok ms -> (forall w, override = Some w -> 10 <= w /\ w <= 30) ->
+    markers_ok override ms = true ->
+    concat_spec override ms = Some expected ->
+    lenN expected + 16 <= cap -> (4 * length ms + 8 <= fuel)%nat ->
+    let r := run_native fuel [cap] false false [] (one_shot ms) (init override) in
+    rr_final r = Done Success /\ rr_emitted r = expected.
+Theorem C03_bits : C03_bits_marked_stmt.
+Proof. exact one_shot_bits. Qed.
+Print Assumptions C03_bits.
+
+(* ... and so does EVERY slicing (C03_bits + C12_slicing + C12_restore): the members cut into input
+   buffers in any way (script_of), output buffers of any sizes including 0, one kept until full or a
+   fresh one per call, any save/restore schedule, any call budget that is not exhausted. *)
+Theorem C03_bits_any_slicing : forall override ms expected ts fuel caps pc rall rs,
+  Forall bytes_ok ms -> (forall w, override = Some w -> 10 <= w /\ w <= 30) ->
+  markers_ok override ms = true -> concat_spec override ms = Some expected ->
+  script_of ms ts ->
+  rr_final (run_native fuel caps pc rall rs ts (init override)) <> Looped ->
+  rr_final (run_native fuel caps pc rall rs ts (init override)) = Done Success /\
+  rr_emitted (run_native fuel caps pc rall rs ts (init override)) = expected.
+Proof. exact bits_any_slicing. Qed.
+Print Assumptions C03_bits_any_slicing.
+
+(* the side condition holds for every byte string of seven or more bytes *)
+Theorem C03_marker_ok_long : forall later m, 7 <= lenN m -> member_marker_ok later m = true.
+Proof. exact marker_ok_long. Qed.
+Print Assumptions C03_marker_ok_long.
+
+(* why streams satisfy the side condition: a shifted first header (metadata or uncompressed) is
+   followed by byte-aligned content and the final empty meta-block, so a stream of six or more bytes has
+   at least two bytes after the header's source bytes; and in a stream of exactly five bytes the marker
+   lies inside the last byte (which then is not 1) behind a header of at most four bytes *)
+Theorem C03_marker_ok_room : forall later m, 6 <= lenN m ->
+  (forall lgwin wlen hlen, rfc_wbits (byte_at m 0 + 256 * byte_at m 1) = Some (lgwin, wlen) ->
+     first_header_len (skipn (N.to_nat wlen) (bits_of_bytes (takeN 6 m))) = Some hlen ->
+     (wlen + hlen + 7) / 8 + 2 <= lenN m) ->
+  member_marker_ok later m = true.
+Proof. exact marker_ok_room. Qed.
+Print Assumptions C03_marker_ok_room.
+
+Theorem C03_marker_ok_five : forall later m, lenN m = 5 -> byte_at m 4 <> 1 -> bytes_ok m ->
+  (forall lgwin wlen hlen, rfc_wbits (byte_at m 0 + 256 * byte_at m 1) = Some (lgwin, wlen) ->
+     first_header_len (skipn (N.to_nat wlen) (bits_of_bytes (takeN 6 m))) = Some hlen ->
+     (wlen + hlen + 7) / 8 <= 4) ->
+  member_marker_ok later m = true.
+Proof. exact marker_ok_five. Qed.
+Print Assumptions C03_marker_ok_five.
+
+(* the relation the induction carries from member to member, for one call of `stream` on a whole
+   member with room in the output: acc = the specification's accumulator, E = all bytes written *)
+Theorem C03_member_step : forall acc E s m out acc',
+  Rel acc E s -> bytes_ok m -> m <> [] -> add_member acc m = Some acc' -> member_marker_ok (later_of acc) m = true ->
+  bytes_ok out -> takeN (lenN E) out = E -> N.of_nat (blen acc) / 8 + lenN m + 8 <= lenN out ->
+  exists r E', stream (new_brotli_file s) m 0 out (lenN E) = Val r /\ r_rc r = NeedsMoreInput /\
+    lenN (r_out r) = lenN out /\ bytes_ok (r_out r) /\ r_off r = lenN E' /\ takeN (lenN E') (r_out r) = E' /\
+    Rel acc' E' (r_s r).
+Proof. exact stream_member. Qed.
+Print Assumptions C03_member_step.
+
+Theorem C03_finish_step : forall acc E s out,
+  Rel acc E s -> takeN (lenN E) out = E -> lenN E + 2 <= lenN out ->
+  exists f, finish s out (lenN E) = Val f /\ f_rc f = Success /\ takeN (f_off f) (f_out f) = expected_of acc.
+Proof. exact finish_Rel. Qed.
+Print Assumptions C03_finish_step.
+
+(* the bit-shifting lemma for the header register: after `realign` over n = ceil(hlen / 8) bytes the
+   register holds, byte by byte, (partial byte l0) + (header bits c) * 2^last_byte_bit_offset *)
+Theorem C03_realign : forall c l0 bo n, bo < 8 -> l0 < 2 ^ bo -> (1 <= n <= 5)%nat ->
+  exists rh, realign n 0 c bo [l0; 0; 0; 0; 0; 0] = Val rh /\ lenN rh = 6 /\
+    forall j, j <= N.of_nat n -> byte_at rh j = ((l0 + c * 2 ^ bo) / 2 ^ (8 * j)) mod 256.
+Proof. exact realign_val. Qed.
+Print Assumptions C03_realign.
+
+(* end-marker stripping = the specification's strip_end_marker, on all 65 536 two-byte tails *)
+Theorem C03_strip : forall a b X, a < 256 -> b < 256 -> strip_end_marker (bits_of_bytes [a; b]) = Some X ->
+  exists e l0 l1 bo, strip2 a b = Some (e, l0, l1, bo) /\
+    bits_of_bytes e ++ byte_bits (N.to_nat bo) l0 = X /\ san_ok l0 l1 bo = true /\ bytes_ok e /\ lenN e <= 1.
+Proof. exact strip2_bits. Qed.
+Print Assumptions C03_strip.
+
+(* Non-vacuity: four members (a 10-byte appendable stream, a 9-byte catable one, an empty one, a
+   5-byte catable one); all hypotheses of C03_bits hold and the run emits the specified bytes *)
+Example C03_bits_hypotheses_satisfiable :
+  Forall bytes_ok ms_ex /\ markers_ok None ms_ex = true /\
+  concat_spec None ms_ex = Some [139; 2; 128; 72; 46; 21; 202; 231; 80; 88; 0; 8; 104; 101; 108; 108; 111; 0; 0; 8; 97; 3] /\
+  result (run_native 24 [38] false false [] (one_shot ms_ex) (init None)) =
+    (Done Success, [139; 2; 128; 72; 46; 21; 202; 231; 80; 88; 0; 8; 104; 101; 108; 108; 111; 0; 0; 8; 97; 3]).
+Proof. exact bits_hypotheses_satisfiable. Qed.
